@@ -38,7 +38,8 @@ def rec_strategy(allow):
     if 'stale' in allow:
         opts.append(st.tuples(st.just('stale'), st.integers(0, 30), st.integers(1, 3)))
     if 'del' in allow:
-        opts.append(st.tuples(st.just('del'), st.integers(0, 30)))
+        # (third element > 0: with the serial of an older revision - refused like a stale store)
+        opts.append(st.tuples(st.just('del'), st.integers(0, 30), st.sampled_from([0, 0, 1, 2])))
     if 'undo' in allow:
         opts.append(st.tuples(st.just('undo'), st.integers(0, 6)))
         opts.append(st.tuples(st.just('undo'), st.integers(0, 2)))
@@ -453,6 +454,21 @@ class StorageRunner:
                 if oid in pending:
                     continue
                 cur = self.model.current(oid)
+                revs = self.model.revisions(oid)
+                if len(r) > 2 and r[2] and 'stale' in getattr(self, 'allow', {'stale'}) and len(revs) >= 2 \
+                        and cur[1] is not None and self.can_stale(oid):
+                    stale = revs[max(0, len(revs) - 1 - r[2])][0]
+                    try:
+                        s.deleteObject(oid, stale, t)
+                    except ConflictError:
+                        self.labels.add('conflict')
+                        self.labels.add('stale-delete-refused')
+                        failed = True
+                        break
+                    self.fail('deleteObject', 'stale-serial-accepted',
+                              'deleteObject(%r, serial=%r) but current is %r' % (oid, stale, cur[0]))
+                    failed = True
+                    break
                 s.deleteObject(oid, cur[0], t)
                 written.append((oid, None))
                 pending[oid] = None
